@@ -222,3 +222,36 @@ func init() {
 func init() {
 	properties["DBG"] = &propSpec{ID: "DBG", Quick: tierSpec{Harnesses: []harnessSpec{{Func: gp + "internal/zzverif.VDbg", Discover: 1}}}}
 }
+
+func init() {
+	z := gp + "internal/zzverif."
+	properties["C19"] = &propSpec{ID: "C19", CLI: true,
+		Bounds: []string{
+			"argument vectors of length 0..4 over {existing valid source, missing file, directory, fresh output path, existing output file holding a longer valid program, path whose parent directory is missing}: all 1555 vectors; no flags",
+			"syntax errors: 6 malformed lines x 0..3 well-formed lines before (6 rotations) x 0..1 after x LF/CRLF x output file present/absent",
+			"comment bytes: every byte sequence of length 1..2 (quick) / 1..3 (thorough) without LF/CR, as 11 byte classes per position whose union is all 254 values, in a trailing ';' comment, a '#' comment line and a comment at end of file without newline; thorough also 2 arbitrary bytes placed 4089..4096 bytes into a comment (decoder buffer boundary)",
+			"CLI vs API: 4 programs (16-bit binary, WCOFF object, ORG+label arithmetic, EQU) with two numbers a in 0..65535 and b in 0..255 as solver variables written in decimal; output file pre-filled with 2000 stale bytes",
+		},
+		OutsideBounds: []string{"flags -v -d --help and unknown flags (flag package behaviour, not in the property)", "permission-denied failures (sandbox runs as root)", "separation of stdout and stderr (the native replay reads both together)", "non-comment Shift_JIS text (string literals)", "comment byte sequences longer than 3 (the decoder carries at most one lead byte of state)", "sources longer than ~4.1 KB"},
+		Assumptions: []string{
+			"github.com/comail/colog is stubbed: it only filters/formats log lines, which the engine records unformatted",
+			"reads of golang.org/x/text's jis0208 table at a symbolic index are abstracted to the value intervals of the table (the index-to-value relation is dropped; sound for 'holds' verdicts)",
+			"os.Stat / ReadFile / OpenFile / WriteFile act on an in-memory tree with directories; a native run of the same model against the real binary on the real file system is compared on every sampled path",
+		},
+		Quick: tierSpec{Harnesses: []harnessSpec{
+			{Func: z + "VC19Smoke", Reach: []string{"c19.smoke.end"}},
+			{Func: z + "VC19Args", Discover: 3, Reach: []string{"c19.args.end"}},
+			{Func: z + "VC19ParseErr", Discover: 3, Reach: []string{"c19.parse.end"}},
+			{Func: z + "VC19Charset", Discover: 4, Params: map[string]int{"maxbytes": 2}, Reach: []string{"c19.charset.end"}},
+			{Func: z + "VC19Equiv", Discover: 3, Digits: 5, Reach: []string{"c19.equiv.end"}},
+		}},
+		Thorough: tierSpec{Harnesses: []harnessSpec{
+			{Func: z + "VC19Smoke", Reach: []string{"c19.smoke.end"}},
+			{Func: z + "VC19Args", Discover: 3, Reach: []string{"c19.args.end"}},
+			{Func: z + "VC19ParseErr", Discover: 3, Reach: []string{"c19.parse.end"}},
+			{Func: z + "VC19Charset", Discover: 5, Params: map[string]int{"maxbytes": 3}, Reach: []string{"c19.charset.end"}},
+			{Func: z + "VC19Chunk", Discover: 3, Reach: []string{"c19.chunk.end"}},
+			{Func: z + "VC19Equiv", Discover: 3, Digits: 5, Reach: []string{"c19.equiv.end"}},
+		}},
+	}
+}
